@@ -32,8 +32,10 @@ CLAIMS = {
         ref="§4 C03"),
     "C05": dict(
         text="One call from an arbitrary state: on every raising path z3 must show nothing was "
-             "written and the full public snapshot is unchanged. Known atomicity defects are listed "
-             "in KNOWN_FINDINGS.txt by exact kind; anything else is a violation.",
+             "written and the full public snapshot is unchanged (pre-states: idle/running machine, G90/G91, "
+             "pause pending, position inside or outside the axes box; installed directly and reached "
+             "through public calls). Known atomicity defects would be listed in KNOWN_FINDINGS.txt by "
+             "exact kind (none at present); anything else is a violation.",
         note="pre-state values finite; axes box and tool-number range concrete; floats as reals",
         ref="§4 C05"),
     "C17": dict(
@@ -170,9 +172,13 @@ CLAIMS = {
              "unmodified; write() returns only after the line acknowledging that statement, is never "
              "released by a status line and never blocks although the acknowledgement arrived; error/"
              "alarm/!!/printrun errors surface as DeviceError; readings reported before or on the "
-             "acknowledging line are available when write() returns.",
-        note="a sequentialised model of the reader with TWO yield points; pre-emption elsewhere, latency, "
-             "connect/disconnect polling loops and the real printcore threads are NOT decided",
+             "acknowledging line are available when write() returns. connect(): the stub plays printcore's "
+             "start-up handshake (two M110 N-1, the second not waited for); the delivery point of the ok "
+             "still owed is a solver variable; then 1-2 statements. disconnect(wait): polling loop with "
+             "the sleep as the point where sender/reader progress.",
+        note="a sequentialised model of the reader with TWO-THREE yield points; pre-emption elsewhere, "
+             "latency and the real printcore threads are NOT decided (the handshake behaviour of the stub "
+             "is read from printcore.py and stated as an assumption)",
         ref="§4 C16"),
     "C07": dict(
         text="Inductive step of I7: after any of 96 call shapes from an arbitrary consistent state "
